@@ -11,8 +11,13 @@ Requests (model part first, implementation-only parameters after it):
         <ok|err>:<output taint>:<codes of wallet.main_key[/per cosigner wallet]>:<codes of the returned WalletKeys|->
   pvk <src> <secret hex> <chain hex> <network> <wt> <Entry>@<argspec>[;<argspec>...] ...
   pvw <conf> <seed hex> <network> <wt> <flags> <Entry>@<argspec>[;<argspec>...] ...
+  rel <conf> <seed hex> <network> <wt> <flags> <loader>,<loader>,...   (scan only)
+        histories that LOAD RELATIONSHIPS of the database rows first (WalletKey.key() of a multisig key, creating / signing
+        a transaction, Wallet.keys(), direct access of multisig_children / multisig_parents / every relationship, one
+        level deeper) and then take every default export; after every loader, every export is taken with the loader
+        repeated right before it (an export may expire what the loader loaded).
         EVERY public-view entry point called with non-default ARGUMENTS (scan only).  argspec: '-' or
-        ~name=value~name=value with value N | T | F | i<int> | s<text>.  Operations of key / wal histories may carry
+        ~name=value~name=value with value N | T | F | i<int> | s<text> | l<item,item> (list) | b<hex> (bytes).  Operations of key / wal histories may carry
         arguments in the same notation: Pm~.. (HDKey.public_master), Pmm~.. (public_master_multisig), Wp~.. (wif_public),
         Hw~.. (HDKey.wif), PmA~.. (Wallet.public_master).
 Response: "<state tokens as the driver prints them> ## <leaks or ->"
@@ -172,7 +177,16 @@ def flatten(o, out, seen, depth=0):
         for v in o:
             flatten(v, out, seen, depth + 1)
         return
-    if hasattr(o, '_sa_instance_state') or type(o).__module__.startswith('sqlalchemy'):
+    if hasattr(o, '_sa_instance_state'):
+        # a database row OBJECT inside an exported value (a loaded relationship in a row dictionary): it is not
+        # followed, but what it PRINTS is part of the export (str(dict), json default=str, repr of the result)
+        for f in (repr, str):
+            try:
+                out.append(f(o).encode('utf8', 'replace'))
+            except Exception:
+                pass
+        return
+    if type(o).__module__.startswith('sqlalchemy'):
         return
     d = getattr(o, '__dict__', None)
     if isinstance(d, dict):
@@ -234,6 +248,10 @@ def decode_args(spec):
             kw[k] = int(v[1:])
         elif v[0] == 's':
             kw[k] = v[1:]
+        elif v[0] == 'l':
+            kw[k] = [x for x in v[1:].split(',')] if v[1:] else []
+        elif v[0] == 'b':
+            kw[k] = bytes.fromhex(v[1:])
         else:
             raise ValueError('argument value ' + v)
     return kw
@@ -286,6 +304,30 @@ def path_secrets(src, kw, sec, multisig_helper=False):
     except Exception:
         pass
     return last
+
+
+def path_items(path):
+    items = path.split('/') if isinstance(path, str) else list(path)
+    if items and items[0] in ('m', 'M'):
+        items = items[1:]
+    return items
+
+
+def subkey_path_secrets(priv, kw, sec):
+    """register the PRIVATE key of every level of the path kw['path'] below the private twin `priv` of the source (the
+    private children are private material of the public path request as well); derived by the library along the
+    private path - the source secret itself is registered independently."""
+    if not (isinstance(priv, HDKey) and priv.is_private):
+        return
+    try:
+        items = path_items(kw.get('path'))
+    except Exception:
+        return
+    for i in range(1, len(items) + 1):
+        try:
+            sec.add_key(copy.deepcopy(priv).subkey_for_path(['m'] + items[:i], network=kw.get('network')))
+        except Exception:
+            break
 
 
 # ------------------------------------------------------------------ Key / HDKey histories
@@ -1216,9 +1258,12 @@ def pv_run(entry, specs, fresh, shared, sec_base, leaks, secrets_for, per_spec=T
 def pv_control(entry, params, fresh, sec_base, secrets_for):
     """the same scan FINDS the private material when the caller asks for it (for the entry points that can be asked)."""
     ask = [p for p in params if p in ASKS_PRIVATE]
+    if entry == 'HDKey.subkey_for_path':
+        ask, kw = ['path'], {'path': 'm/0'}          # the PRIVATE path of the same shape must be found
     if not ask:
         return 'n/a'
-    kw = {ask[0]: True}
+    if entry != 'HDKey.subkey_for_path':
+        kw = {ask[0]: True}
     if entry == 'Wallet.keys':
         kw = {'include_private': True, 'as_dict': True}
     sec = Secrets()
@@ -1262,6 +1307,17 @@ def do_pvk(t):
         base = HDKey(key=b, chain=ch, network=network, witness_type=wt)
     sec.add_key(base)
     sec.add(int(secret, 16), (0, b'\0\0\0\0', 0, ch) if isinstance(base, HDKey) else None)
+    twin = base                    # the private key the source is a view of (the source itself when it is private)
+    if src in ('pub', 'pubwarm'):
+        if src == 'pubwarm':
+            base.wif_key(); base.wif_private(); base.as_dict(include_private=True); captured(base.info)
+        base = base.public()
+    elif src == 'pubm':
+        path_secrets(base, {}, sec)
+        twin = base.public_master(as_private=True)
+        sec.add_key(twin)
+        base = base.public_master()
+    is_view = src in ('pub', 'pubwarm', 'pubm')
     if src == 'warm':
         # every cache an earlier private export can fill
         base.wif_key(); base.wif_private(); base.as_dict(include_private=True); captured(base.info); base.address()
@@ -1275,9 +1331,14 @@ def do_pvk(t):
         def secrets_for(kw, sec, helper=helper, entry=entry):
             if entry in ('HDKey.public_master', 'HDKey.public_master_multisig'):
                 path_secrets(base, kw, sec, multisig_helper=helper)
+            if entry == 'HDKey.subkey_for_path':
+                subkey_path_secrets(twin, kw, sec)
         shared = copy.deepcopy(base)
         st = pv_run(entry, specs, lambda: copy.deepcopy(base), shared, sec, leaks, secrets_for)
-        st['control'] = pv_control(entry, entry_param_names(base, entry), lambda: copy.deepcopy(base), sec, secrets_for)
+        if is_view:
+            st['control'] = 'n/a'      # (a source without private part has nothing the control could find)
+        else:
+            st['control'] = pv_control(entry, entry_param_names(base, entry), lambda: copy.deepcopy(base), sec, secrets_for)
         # the shared object itself is NOT a view (it is the private source), but its default exports stay clean
         default_export_leaks(shared, sec, leaks, entry + ':source-after-calls')
         stats.append('%s:ok=%d:raised=%d:control=%s' % (entry, st['ok'], st['raised'], st['control']))
@@ -1355,11 +1416,156 @@ def do_pvw(t):
     return 'ok %s ## %s' % (' '.join(stats), ' | '.join(leaks) if leaks else '-')
 
 
+# ------------------------------------------------------------------ default exports AFTER relationships were loaded
+def rel_load(w, name, state):
+    """one step that may load relationships of the database rows into the session of wallet w."""
+    from sqlalchemy import inspect as sa_inspect
+    if name == 'none':
+        return
+    if name == 'getkey':
+        k = w.get_key()
+        k.key()
+        return
+    if name == 'keykey':
+        for r in w.keys(is_active=False)[-6:]:
+            w.key(r.id).key()
+        return
+    if name == 'wkeys':
+        w.keys()
+        w.keys_addresses()
+        return
+    if name in ('children', 'parents', 'allrel', 'deeprel'):
+        for r in w.keys(is_active=False):
+            names = {'children': ['multisig_children'], 'parents': ['multisig_parents']}.get(name) or \
+                [x.key for x in sa_inspect(type(r)).relationships]
+            for n in names:
+                v = getattr(r, n)
+                if name == 'deeprel':
+                    for x in (v if isinstance(v, list) else [v]):
+                        if x is not None and hasattr(x, '_sa_instance_state'):
+                            for y in sa_inspect(type(x)).relationships:
+                                getattr(x, y.key)
+        return
+    if name == 'tx':
+        if state.get('tx') is None:
+            k = w.get_key()
+            w.utxos_update()
+            state['tx'] = w.send_to(w.get_key().address, 1000, broadcast=False)
+        else:
+            w.transaction_create([(w.get_key().address, 900)])
+        return
+    if name == 'sign':
+        if state.get('tx') is not None:
+            state['tx'].sign()
+        else:
+            rel_load(w, 'tx', state)
+        return
+    if name == 'info':
+        captured(lambda: w.info(detail=5))
+        return
+    if name == 'pm':
+        w.public_master()
+        return
+    raise ValueError('loader ' + name)
+
+
+def rel_exports(w, top=True):
+    """every default export of a wallet: (label, thunk).  The value AND its text forms are scanned."""
+    ex = [('as_json()', lambda: w.as_json()), ('str(as_dict())', lambda: str(w.as_dict())), ('as_dict()', lambda: w.as_dict()),
+          ('keys(as_dict=True)', lambda: w.keys(as_dict=True)), ('str(keys(as_dict=True))', lambda: str(w.keys(as_dict=True))),
+          ('keys(as_dict=True,is_active=False)', lambda: w.keys(as_dict=True, is_active=False)),
+          ('keys_*(as_dict=True)', lambda: [w.keys_networks(as_dict=True), w.keys_accounts(as_dict=True),
+                                           w.keys_addresses(as_dict=True), w.keys_address_payment(as_dict=True),
+                                           w.keys_address_change(as_dict=True)]),
+          ('repr', lambda: [repr(w), str(w)]),
+          ('transactions as_dict/as_json', lambda: [[t.as_dict(), t.as_json(), repr(t)] for t in w.transactions(include_new=True)[:3]]),
+          ('addresslist', lambda: w.addresslist())]
+    if top:
+        ex.append(('get_key().as_dict()', lambda: [w.get_key().as_dict(), repr(w.get_key())]))
+    ex.append(('info(detail=5)', lambda: captured(lambda: w.info(detail=5))))
+    return ex
+
+
+def text_forms(v):
+    out = [v]
+    if not isinstance(v, str):
+        for f in (str, repr, lambda x: json.dumps(x, default=str)):
+            try:
+                out.append(f(v))
+            except Exception:
+                pass
+    return out
+
+
+def do_rel(t):
+    conf, seed, network, wt, flags, loaders = t[1:7]
+    w, sec, name, uri = make_conf_wallet(conf, seed, network, wt, flags)
+    w.get_key()
+    wallet_secrets(w, sec)
+    leaks = []
+    n_exports = n_raised = 0
+    # sensitivity control first (see the remark on info() below): the explicit private export must be FOUND
+    control = 'n/a'
+    holders = [c for c in ([w] + list(w.cosigner)) if c.main_key is not None and c.main_key.is_private]
+    if holders:
+        control = 'found' if sec.find(blob_of([text_forms(c.as_json(include_private=True)) for c in holders])) else 'MISSED'
+    targets = [('', w)] + [(':cosigner%d' % i, c) for i, c in enumerate(w.cosigner)]
+    lds = loaders.split(',')
+    for tag, tgt in targets:
+        state = {}
+        done = []
+        for li, ld in enumerate(lds):
+            if (ld in ('tx', 'sign') and network != 'bitcoinlib_test') or (ld in ('tx', 'sign', 'getkey', 'keykey') and tag):
+                continue
+            done.append(ld)
+            for label, f in rel_exports(tgt, not tag):
+                if label.startswith('info') and state.get('tx') is not None:
+                    # (info() of a wallet with transactions strips the ORM state from live row objects - as utxos() and
+                    #  transactions(as_dict=True) do; with loaded relationships keeping them alive, later queries of the
+                    #  session fail: a functional defect outside C16, so this export is taken at the end only)
+                    continue
+                where = '%s after %s%s' % (label, '+'.join(done), tag)
+                try:
+                    rel_load(tgt, ld, state)
+                except ValueError:
+                    raise
+                except Exception as e:
+                    leaks.append('%s:load-raised:%s:%s' % (where, type(e).__name__, str(e)[:50].replace('|', '/')))
+                    n_raised += 1
+                    break
+                wallet_secrets(tgt, sec) if ld in ('tx', 'getkey') else None
+                try:
+                    v = f()
+                except Exception as e:
+                    leaks.append('%s-raised:%s:%s' % (where, type(e).__name__, str(e)[:50].replace('|', '/')))
+                    n_raised += 1
+                    continue
+                n_exports += 1
+                hit = sec.find(blob_of(text_forms(v)))
+                if hit:
+                    leaks.append('%s:%s' % (where, hit))
+    # (Wallet.utxos() strips the ORM state from the live row objects it returns - later queries of the same session
+    #  fail, and so does transactions(as_dict=True) - so they are taken last)
+    for label, f in (('transactions(as_dict=True)', lambda: w.transactions(include_new=True, as_dict=True)),
+                     ('utxos()', lambda: w.utxos()), ('info(detail=5)', lambda: captured(lambda: w.info(detail=5)))):
+        try:
+            hit = sec.find(blob_of(text_forms(f())))
+            if hit:
+                leaks.append('%s after %s:%s' % (label, loaders.replace(',', '+'), hit))
+        except Exception as e:
+            leaks.append('%s-raised:%s' % (label, type(e).__name__))
+    for x in [w] + list(w.cosigner):
+        x.session.close()
+    return 'ok control=%s exports=%d raised=%d ## %s' % (control, n_exports, n_raised, ' | '.join(leaks) if leaks else '-')
+
+
 def dispatch(t):
     if t[0] == 'pvk':
         return do_pvk(t)
     if t[0] == 'pvw':
         return do_pvw(t)
+    if t[0] == 'rel':
+        return do_rel(t)
     if t[0] == 'dbfile-enc':
         return do_dbfile_enc(t)
     if t[0] == 'key':
@@ -1385,7 +1591,7 @@ def answer(line):
                                       traceback.format_exc().strip().split('\n')[-3].strip()[:100])
 
 
-POOLED = ('wal', 'wallet', 'wk', 'dbfile', 'dbfile-enc', 'pvw', 'pvk')
+POOLED = ('wal', 'wallet', 'wk', 'dbfile', 'dbfile-enc', 'pvw', 'pvk', 'rel')
 
 
 def main():
